@@ -26,6 +26,9 @@ def run(tier, seed):
     from contracts import C03_assembly as A3
     items += [(A3.j_islands('C12'), None, A3.replay_j_islands), (A3.j_islands_rebuild('C12'), None, A3.replay_j_islands),
               (A3.system_j_update('C12'), None, A3.replay_system_j_update)]
+    # the islands are recomputed at the start of every power-flow run (check_conn = 1), whatever status request is pending
+    from contracts import fn_pflow as P
+    items.append((P.run('C12'), None, P.replay_run))
     run_contracts(pack, items)
     bounded(pack, tier)
     from contracts import bounded_islands_real as BIR
